@@ -216,7 +216,7 @@ def main():
                     warmed.add(w)
                 if 'seeds' in job:
                     res = run_in_child(lambda: many_runs(job['prop'], job['batch'], job['seeds']),
-                                       timeout=CHILD_TIMEOUT + 2.0 * len(job['seeds']))
+                                       timeout=(CHILD_TIMEOUT + 2.0 * len(job['seeds'])) * float(job.get('timeout_scale', 1)))
                     if 'harness_error' in res:
                         res = {'results': [dict(res) for _ in job['seeds']]}
                 else:
